@@ -479,13 +479,14 @@ def _guards(ctx, P):
     ev = Evaluator(P, models={"warnings.warn": lambda ev, a, k, n: None, "transform:conservative_interpolation": m_cons, "grid:Grid.interp": m_grid_interp},
                    attr_models=da_attr_models(), method_models=mm)
     AZ = Sym("AZ")
-    for on, must_interp in (("center", True), ("outer", False)):
+    mm[("Dataset", "__getitem__")] = lambda ev, recv, a, k, n: make_da("grid_coordinate", [a[0]], name=a[0], key=a[0], of=recv.name)
+    for on, must_interp in (("center", True), ("outer", False), ("omitted", False)):
         seen.clear()
         cons.clear()
         try:
-            g = make_grid(("AZ",), boundary="fill", fill_value=0.0)
+            g = make_grid(("AZ",), boundary="fill", fill_value=0.0, ds=Obj("Dataset", "grid_ds"))
             da = make_da("da", [Sym("t"), dimsym("AZ", "center")], name=Sym("nm"))
-            td = make_da("td", [Sym("t"), dimsym("AZ", on)], name=Sym("tdn"))
+            td = make_da("td", [Sym("t"), dimsym("AZ", on)], name=Sym("tdn")) if on != "omitted" else None
             outs = ev.run_paths(tfi, lambda: dict(grid=g, axis_name=AZ, da=da, target=make_da("target", [Sym("lev")], coords={Sym("lev"): (Sym("lev"),)}), target_data=td, target_dim=None, method="conservative",
                                                   mask_edges=True, bypass_checks=False, suffix="_t"))
         except Unmodelled as e:
@@ -516,6 +517,13 @@ def _guards(ctx, P):
                     ch = [e[1] for e in theta.eff if e[0] == "chunk"]
                     if ch and not (isinstance(ch[-1], dict) and ch[-1].get(dimsym("AZ", "outer")) == -1):
                         bad = f"the interpolated target_data is re-chunked to {ch[-1]!r}; its cell-bound dimension must be one chunk (-1) for the column-wise kernel"
+            elif on == "omitted":
+                # regridding along the axis' own coordinate: the cell bounds are the grid's coordinate on the outer position, as stored
+                if not (isinstance(theta, Obj) and theta.name == "grid_coordinate" and theta.attrs.get("of") == "grid_ds" and theta.attrs.get("key") == dimsym("AZ", "outer")) or seen:
+                    what = (f"the grid's coordinate {theta.attrs.get('key')!r}" if isinstance(theta, Obj) and theta.name == "grid_coordinate" else f"{theta!r}") + (" interpolated to the bounds" if seen else "")
+                    bad = f"without target_data the cell bounds handed to the kernel are {what}; they must be the grid's own coordinate on the outer position, as stored"
+                elif foreign_ops(theta.eff)[0]:
+                    bad = f"the grid's outer coordinate is altered by {foreign_ops(theta.eff)[0]} before use"
             else:
                 if seen or theta.name != "td":
                     bad = "target_data already on the cell bounds is altered before use"
@@ -524,7 +532,7 @@ def _guards(ctx, P):
         if bad:
             ctx.report("R07.4", tfi, f"transform(method='conservative'), target_data on {on}", bad)
         else:
-            ctx.ok("R07.4", f"transform(method='conservative'), target_data on {on}", "interpolated to the bounds with 'extend'" if must_interp else "used as given")
+            ctx.ok("R07.4", f"transform(method='conservative'), target_data on {on}", "interpolated to the bounds with 'extend'" if must_interp else "the grid's outer coordinate, as stored" if on == "omitted" else "used as given")
 
 
 class _Sub:
